@@ -49,6 +49,9 @@ type TxPlan struct {
 	// generation-time only
 	At    int64 `json:"-"` // absolute height wanted (0: transport decides)
 	NoOOG bool  `json:"-"`
+	// Also: further transactions (of other signers) the same intent consists of; each goes
+	// through the transport on its own, as if generated right after this one
+	Also []*TxPlan `json:"-"`
 }
 
 // Tx1 wraps a single op into a plan.
